@@ -41,6 +41,9 @@ type tctx struct {
 	k     int    // thread index: selects thread-specific contents
 	hold  func() // the caller keeps a result while other threads may run
 	small bool   // fine-grained phase: ops touch each shared table a few times instead of dozens
+	// setConst makes the random source serve the constant octet v to this thread (v < 0: back to this thread's
+	// non-repeating stream); nil where the source is not scripted (free-running pass)
+	setConst func(v int)
 }
 
 type c18Op struct {
@@ -269,6 +272,47 @@ func c18Ops() []c18Op {
 			sig, _ := checkSA(sa, want, ref.PRFs[t.k%3], ref.Integs[1])
 			return "sa " + sig
 		}},
+		{"unprotect-refused/hold/error-text", func(t *tctx) string {
+			// a refused datagram: the error value is kept by the caller and read again later
+			ks := univ.MakeKeySet((t.k+4)%9, 2, 5+t.k)
+			sa, _ := univ.NewSA(ks)
+			ske, ska := ks.DirKeys(true)
+			m := c18Msg(t.k + 9)
+			_, inner, _ := ref.EncodeChain(m.P, ref.Lib{})
+			pad := (16 - (len(inner)+1)%16) % 16
+			b, err := ref.Protect(ks.Suite, ske, ska, m, ref.Lib{}, univ.Pat(16, 60+t.k), univ.Pat(pad, t.k))
+			if err != nil {
+				return "reference protect error"
+			}
+			b[len(b)-1-t.k%8] ^= byte(1 + t.k)
+			_, derr := ike.DecodeDecrypt(b, nil, sa, message.Role_Responder)
+			if derr == nil {
+				return "damaged datagram accepted"
+			}
+			first := derr.Error()
+			t.hold()
+			again := derr.Error()
+			_, derr2 := ike.DecodeDecrypt(b[:len(b)-3], nil, sa, message.Role_Responder)
+			return fmt.Sprintf("%s | same text after hold=%v | truncated refused=%v", first, first == again, derr2 != nil)
+		}},
+		{"random-number(stuck source)", func(t *tctx) string {
+			// this thread's random source is stuck at a constant (other threads' sources are their own)
+			if t.setConst == nil {
+				return "skipped"
+			}
+			t.setConst(0x50 + t.k%4)
+			defer t.setConst(-1)
+			n, err := security.GenerateRandomNumber()
+			if err != nil {
+				return "error"
+			}
+			t.hold()
+			n2, err := security.GenerateRandomNumber()
+			if err != nil {
+				return "error on second draw"
+			}
+			return fmt.Sprintf("%x %v", n.Bytes()[:4], n.Cmp(n2) == 0)
+		}},
 	}
 }
 
@@ -281,6 +325,16 @@ func c18Execute(progs [][]int, r *engine.Run, lvl int) (results []string, s *eng
 	seam := engine.NewSeam(nil, nil)
 	seam.Horizon = 1000
 	seam.StreamOf = func() uint64 { return uint64(1000 + s.Current()) }
+	constFor := make([]int, len(progs)+1)
+	for i := range constFor {
+		constFor[i] = -1
+	}
+	seam.ConstOf = func() int {
+		if cur := s.Current(); cur >= 0 && cur < len(constFor) {
+			return constFor[cur]
+		}
+		return -1
+	}
 	seam.Before = func() { s.Point("rand.Read") }
 	restore := engine.Install(seam)
 	defer restore()
@@ -328,7 +382,7 @@ func c18Execute(progs [][]int, r *engine.Run, lvl int) (results []string, s *eng
 		s.Go(func(t *engine.Thread) {
 			var out []string
 			for _, oi := range prog {
-				out = append(out, ops[oi].run(&tctx{k: ti, hold: func() { s.Point("hold") }, small: fine}))
+				out = append(out, ops[oi].run(&tctx{k: ti, hold: func() { s.Point("hold") }, small: fine, setConst: func(v int) { constFor[ti] = v }}))
 				s.Point("op-boundary")
 			}
 			results[ti] = strings.Join(out, " || ")
@@ -560,7 +614,7 @@ func RacePassMain(n, rounds int) int {
 	for g := 0; g < n; g++ {
 		solo[g] = make([]string, len(ops))
 		for oi, op := range ops {
-			if oi == 9 || oi == 14 {
+			if oi == 9 || oi == 14 || oi == 16 {
 				continue
 			}
 			solo[g][oi] = op.run(&tctx{k: g % 16, hold: func() {}})
